@@ -180,6 +180,9 @@ class Model:
         F["stmts"] += 1
         F["max_depth"] = max(F["max_depth"], depth)
         ln = s.lineno
+        if isinstance(s, ast.AnnAssign) and s.value is not None and isinstance(s.target, ast.Name):
+            # `x: T = v` scopes exactly like `x = v` (the generator keeps T equal to v's type)
+            s = ast.copy_location(ast.Assign(targets=[s.target], value=s.value), s)
         if isinstance(s, ast.Assign):
             if len(s.targets) != 1 or not isinstance(s.targets[0], ast.Name):
                 raise ModelError("unsupported assignment target")
@@ -200,6 +203,11 @@ class Model:
             return n.idx
         if isinstance(s, ast.Expr):
             c = s.value
+            if isinstance(c, ast.Name):  # bare-name expression statement: a read
+                n = self._new("rd", ln, loop_depth=ld)
+                self._read(n, c.id, "result")
+                n.succ = [nxt]
+                return n.idx
             if (isinstance(c, ast.Call) and isinstance(c.func, ast.Name) and c.func.id == "result"
                     and len(c.args) == 2 and isinstance(c.args[1], ast.Name)):
                 n = self._new("rd", ln, loop_depth=ld)
